@@ -93,6 +93,124 @@ example : valid toy [7, 9, 0, 0, 0] = false ∧ usableCow toy (some [1, 2, 0, 0,
     readAndRestore toy true ⟨[7, 9, 0, 0, 0], some [1, 2, 0, 0, 0]⟩ = (.ok [1, 2, 0, 0, 0], ⟨[1, 2, 0, 0, 0], some [1, 2, 0, 0, 0]⟩) := by
   decide
 
+/-! ### the writer's own crash: a torn (first) write of a block is reported or restored, never served
+
+`crashDisk skipZero old new cp` (model) is what `writeBlockRegionPayload` leaves behind when the process dies at
+`cp`. For the code as it is (`skipZero = false`: the backup is written for EVERY pre-image, the all-zero one of a
+never written block included) whatever a reader or the next writer is handed afterwards is an error or passed its
+checksum. The variant that skips the backup of an all-zero pre-image serves the torn first write. -/
+
+/-- the outcome of a block read is an error, or a buffer that passed its checksum -/
+def Verified (P : Params) (r : Res) : Prop := r = .err ∨ ∃ buf, r = .ok buf ∧ valid P buf = true
+
+/-- "a writer that dies anywhere leaves nothing unverified to be served", for a variant of the writer -/
+def Statement_C23_writer (skipZero : Bool) : Prop :=
+  ∀ (P : Params) (old new : Block), old.length = P.n → valid P old = true → new.length = P.n →
+    valid P new = true → ∀ (cp : CrashPoint) (rw : Bool),
+      Verified P (readAndRestore P rw (crashDisk skipZero old new cp)).1
+
+theorem valid_len' {P : Params} {b : Block} (h : valid P b = true) : 4 ≤ b.length := by
+  unfold valid at h
+  by_cases hl : b.length < 4
+  · simp [hl] at h
+  · omega
+
+theorem usable_of_valid (P : Params) (old : Block) (hl : old.length = P.n) (hv : valid P old = true) :
+    usableCow P (some old) = true := by
+  have h4 := valid_len' hv
+  have hP : ¬ P.n = 0 := by omega
+  simp [usableCow, hl, hv, hP]
+
+theorem verified_of_servable (P : Params) (rw : Bool) (d : Disk)
+    (h : valid P d.blk = true ∨ usableCow P d.cow = true) : Verified P (readAndRestore P rw d).1 := by
+  by_cases hl : d.blk.length = P.n
+  · obtain ⟨buf, h1, h2, _⟩ := C23_partial P rw d hl h
+    exact Or.inr ⟨buf, h1, h2⟩
+  · left; simp [readAndRestore, hl]
+
+/-- **C23 for the writer's own crashes, code as it is**: every crash point — before / inside the backup write (any
+prefix), inside the block write (any prefix, any set of sectors), after it —, every pre-image (all-zero = never
+written block included), read-write or read-only reader. -/
+theorem C23_writer_crash_verified : Statement_C23_writer false := by
+  intro P old new hlo hvo hln hvn cp rw
+  have hu := usable_of_valid P old hlo hvo
+  cases cp with
+  | before => exact verified_of_servable P rw _ (Or.inl hvo)
+  | cow k => exact verified_of_servable P rw _ (Or.inl hvo)
+  | torn L => exact verified_of_servable P rw _ (Or.inr (by simpa [crashDisk, backsUp] using hu))
+  | mask s bits => exact verified_of_servable P rw _ (Or.inr (by simpa [crashDisk, backsUp] using hu))
+  | after => exact verified_of_servable P rw _ (Or.inl hvn)
+
+/-- an all-zero block of block size passes `unmarshalData` -/
+theorem valid_zero (P : Params) (z : Block) (hz : isZero z = true) (h4 : 4 ≤ z.length) : valid P z = true := by
+  unfold valid
+  have : ¬ z.length < 4 := by omega
+  simp [this, hz]
+
+/-- **a torn FIRST write of a never written block is restored to the all-zero pre-image**: whenever the block the
+dead writer left fails its checksum, the reader is handed the all-zero block (so no record of the never committed
+write exists), and a read-write reader puts it back on disk. -/
+theorem C23_torn_first_write_restored (P : Params) (z new : Block) (hz : isZero z = true) (hl : z.length = P.n)
+    (h4 : 4 ≤ P.n) (hvn : valid P new = true) (cp : CrashPoint) (rw : Bool)
+    (hlen : (crashDisk false z new cp).blk.length = P.n)
+    (hbad : valid P (crashDisk false z new cp).blk = false) :
+    (readAndRestore P rw (crashDisk false z new cp)).1 = .ok z ∧
+    (rw = true → (readAndRestore P rw (crashDisk false z new cp)).2.blk = z) := by
+  have hv : valid P z = true := valid_zero P z hz (by omega)
+  have hP : ¬ P.n = 0 := by omega
+  have hcc : checkCow P (some z) = (z, true) := by simp [checkCow, hl, hv, hP]
+  have hzn : ¬ z.length = 0 := by omega
+  cases cp with
+  | before => simp [crashDisk] at hbad; rw [hv] at hbad; exact absurd hbad (by decide)
+  | cow k => simp [crashDisk] at hbad; rw [hv] at hbad; exact absurd hbad (by decide)
+  | torn L =>
+    simp only [crashDisk, backsUp, Bool.false_and, Bool.not_false, if_true] at hlen hbad ⊢
+    cases rw <;> simp [readAndRestore, hlen, hbad, hcc, hzn]
+  | mask s bits =>
+    simp only [crashDisk, backsUp, Bool.false_and, Bool.not_false, if_true] at hlen hbad ⊢
+    cases rw <;> simp [readAndRestore, hlen, hbad, hcc, hzn]
+  | after =>
+    simp only [crashDisk] at hbad
+    rw [hvn] at hbad; exact absurd hbad (by decide)
+
+/-- the next writer merges its record into a buffer that passed its checksum (or fails) -/
+theorem C23_next_writer_merges_verified (P : Params) (old new : Block) (hlo : old.length = P.n)
+    (hvo : valid P old = true) (hln : new.length = P.n) (hvn : valid P new = true) (cp : CrashPoint)
+    (off : Nat) (rec : List Nat) :
+    (updateBlock P (crashDisk false old new cp) off rec).1 = .err ∨
+    ∃ buf, valid P buf = true ∧
+      updateBlock P (crashDisk false old new cp) off rec =
+        (.ok (newImage P buf off rec), ⟨newImage P buf off rec, none⟩) := by
+  rcases C23_writer_crash_verified P old new hlo hvo hln hvn cp true with e | ⟨buf, e, hv⟩
+  · left
+    unfold updateBlock updateBlockW
+    cases hr : readAndRestore P true (crashDisk false old new cp) with
+    | mk r d' => rw [hr] at e; simp only at e; subst e; rfl
+  · right
+    refine ⟨buf, hv, ?_⟩
+    unfold updateBlock updateBlockW
+    cases hr : readAndRestore P true (crashDisk false old new cp) with
+    | mk r d' => rw [hr] at e; simp only at e; subst e; rfl
+
+/-- **The variant that skips the backup of an all-zero pre-image violates it**: a never written toy block, first
+write `[7, 8, 0, 0, 0]` torn after one byte: no backup, the reader is handed `[7, 0, 0, 0, 0]`, which fails its
+checksum. -/
+theorem C23_skip_zero_backup_counterexample : ¬ Statement_C23_writer true := by
+  intro h
+  have h1 := h toy [0, 0, 0, 0, 0] [7, 8, 0, 0, 0] rfl (by decide) rfl (by decide) (.torn 1) true
+  have h2 : (readAndRestore toy true (crashDisk true [0, 0, 0, 0, 0] [7, 8, 0, 0, 0] (.torn 1))).1 =
+      .ok [7, 0, 0, 0, 0] := by decide +kernel
+  rw [h2] at h1
+  rcases h1 with e | ⟨buf, e, hv⟩
+  · exact absurd e (by decide)
+  · injection e with e
+    subst e
+    exact absurd hv (by decide)
+
+/-- non-vacuity: under the code's own discipline the same torn first write is restored to the empty block -/
+example : readAndRestore toy true (crashDisk false [0, 0, 0, 0, 0] [7, 8, 0, 0, 0] (.torn 1)) =
+    (.ok [0, 0, 0, 0, 0], ⟨[0, 0, 0, 0, 0], some [0, 0, 0, 0, 0]⟩) := by decide +kernel
+
 /-! ### the repaired reader satisfies the full statement -/
 
 theorem fixed_rejects_read (P : Params) (rw : Bool) (d : Disk) (hl : d.blk.length = P.n)
